@@ -6,6 +6,8 @@ extern "C" {
 #undef DEFAULT
 #include "intent.hpp"
 #include <memory>
+#include <cerrno>
+#include <cstring>
 
 namespace al {
 
@@ -35,16 +37,49 @@ struct Result {
   bool prefix_touched = false;   // bytes before the starting offset modified
 };
 
-// Assemble `text` on a fresh instance over a caller buffer of `n` bytes, starting at `start`.
+// The documented entry point or its deprecated alias (same contract): which one is a function of `sel`.
+static inline int call_str(assemblyline_t a, const char *text, unsigned sel) {
+  return (sel % 3 == 1) ? assemble_str(a, text) : asm_assemble_str(a, text);
+}
+
+// A seeded "previous life" of an instance that stays inside every property's domain and ends with chunk fitting
+// switched off and the requested options in force: redundant option calls, fitting switched on and off again, a
+// failing call (documented name or deprecated alias), a counting call, code assembled, the offset moved.
+static inline void prelife(assemblyline_t a, uint64_t seed, const spec::Opts &o) {
+  static const char *VALID[] = {"mov rax, rbx", "add rcx, 5", "vpaddd ymm1, ymm2, [eax+ebx*2+0x100]", "mov rax, 0x1122334455667788", "mov byte [rsp+rax], 1", "nop"};
+  uint64_t x = seed * 0x9e3779b97f4a7c15ULL + 5; auto nx = [&](unsigned n) { x ^= x << 13; x ^= x >> 7; x ^= x << 17; return (unsigned)((x >> 11) % n); };
+  int n = 1 + (int)nx(5);
+  for (int i = 0; i < n; i++) {
+    switch (nx(7)) {
+      case 0: asm_set_all(a, (enum asm_opt)nx(3)); break;
+      case 1: asm_sib(a, (enum asm_opt)nx(2)); break;
+      case 2: { static const size_t C[] = {2, 3, 8, 16, 17, 64, 4096}; asm_set_chunk_size(a, C[nx(7)]); asm_set_chunk_size(a, nx(2)); break; }
+      case 3: { asm_set_offset(a, 0); call_str(a, "definitely not an instruction\n", nx(3)); asm_set_offset(a, 0); break; }
+      case 4: { asm_set_offset(a, 0); std::string l = std::string(VALID[nx(6)]) + "\n"; std::vector<char> w(l.begin(), l.end()); w.push_back(0); int c = 0; static const int C[] = {0, 2, 16, 4096}; asm_assemble_string_counting_chunks(a, w.data(), C[nx(4)], &c); asm_set_offset(a, 0); break; }
+      case 5: { asm_set_offset(a, 0); std::string l = std::string(VALID[nx(6)]) + "\n"; call_str(a, l.c_str(), nx(3)); asm_set_offset(a, 0); break; }
+      case 6: asm_mov_imm(a, (enum asm_opt)7); break;
+    }
+  }
+  asm_mov_imm(a, (enum asm_opt)o.mov); asm_sib_index_base_swap(a, (enum asm_opt)o.swap); asm_sib_no_base(a, (enum asm_opt)o.nobase);
+  asm_set_offset(a, 0);
+}
+
+// Assemble `text` on a new instance over a caller buffer of `n` bytes, starting at `start`.  Derived from the text's
+// hash: which equivalent setter path configures the instance, whether the instance has a previous life, whether the
+// documented entry point or its deprecated alias is called, and the value errno has on entry (it is the caller's, and
+// arbitrary - a library may not read it before setting it).
 static inline Result assemble(const std::string &text, int combo, int n = 256, int start = 0, uint8_t fill = 0xcc) {
   Result r;
   std::unique_ptr<uint8_t[]> buf(new uint8_t[n]);
   memset(buf.get(), fill, n);
   assemblyline_t a = asm_create_instance(buf.get(), n);
-  { unsigned h = 2166136261u; for (unsigned char ch : text) h = (h ^ ch) * 16777619u; apply_opts(a, spec::combo_opts(combo), h >> 7); }
+  unsigned h = 2166136261u; for (unsigned char ch : text) h = (h ^ ch) * 16777619u;
+  if ((h >> 3) % 8 == 5) { prelife(a, h, spec::combo_opts(combo)); memset(buf.get(), fill, n); }
+  else apply_opts(a, spec::combo_opts(combo), h >> 7);
   asm_set_offset(a, start);
   r.off_before = start;
-  r.rc = asm_assemble_str(a, text.c_str());
+  { static const int E[] = {0, ERANGE, EINVAL, ENOMEM, EINTR, EBADF, ENOENT, 0}; errno = E[(h >> 13) % 8]; }
+  r.rc = call_str(a, text.c_str(), h >> 17);
   r.off_after = asm_get_offset(a);
   for (int i = 0; i < start; i++) if (buf[i] != fill) r.prefix_touched = true;
   if (r.rc == 0 && r.off_after >= start && r.off_after <= n) r.bytes.assign(buf.get() + start, buf.get() + r.off_after);
